@@ -45,6 +45,7 @@ func Profile() *world.Profile {
 		HotPm: 250, HostilePm: 100,
 		Methods: []string{"GET", "HEAD", "POST"}, MethodW: []int{5, 2, 1},
 		KnownChain: true,
+		StagedPm:   250,
 	}
 	p.Shapes = make([]int, 24)
 	for i, w := range map[int]int{world.ShCtx: 8, world.ShHTTP: 1, world.ShCtxTok: 2, world.ShCtxReqTok: 1, world.ShCtxStr: 2, world.ShCtxBytes: 1,
